@@ -80,7 +80,7 @@ theorem sim_pop_dead {m : State} {s : SState} {K : MStack} {f : Frame} {fs fs' :
     apply cursors_frames_congr hd.symm
     exact cursors_mono (m := m) (Nat.le_refl _) (fun e' g' d' _ hal hd' => ⟨hal, d', hd', fun _ _ _ hh => hh⟩) hcur
 
-theorem sim_finish {m : State} {s : SState} {fid idx : Nat} {eg : Nat × Nat} {snap : List Nat} {K : MStack}
+theorem sim_finish {m : State} {s : SState} {fid : Nat} {idx : Option Nat} {eg : Nat × Nat} {snap : List Nat} {K : MStack}
     (h : Sim m s (((fid, idx), (eg, snap)) :: K)) :
     Sim (machine.finish fid m) (Spec.machine.finish eg s) K := by
   obtain ⟨e, g⟩ := eg
